@@ -167,6 +167,12 @@ pub fn run(ctx: &Ctx) {
     for h in [HashId::Sha256_256, HashId::Shake256_256] {
         eight.push(SignCase { hash: h, levels: vec![(1, 2); 8], seed: gen::SeedSpec::Random(8), counter: 5, counter_class: "siglen".into(), msg: gen::MsgSpec { len: 10, tag: 8 } });
     }
+    // messages longer than 64 KiB (16-bit length boundaries inside hashing / buffering code)
+    for (k, len) in [65_535usize, 65_536, 65_537, 70_001, 131_072, 200_000].iter().enumerate() {
+        for h in [ALL_HASHES[k % 6], ALL_HASHES[(k + 3) % 6]] {
+            eight.push(SignCase { hash: h, levels: vec![(4, 2), (8, 2)], seed: gen::SeedSpec::Random(k as u64), counter: k as u64, counter_class: "msg-64k".into(), msg: gen::MsgSpec { len: *len, tag: k as u64 } });
+        }
+    }
     // every message length 0..=200, rotating hash / W / entry point
     for len in 0..=200usize {
         let h = ALL_HASHES[(len + 1) % 6];
